@@ -318,6 +318,7 @@ class World:
         self.labels = set()
         self.sps = []
         self.steps = 0
+        self.tid_of = {}        # name -> tid of the newest stored revision
 
     def fail(self, oracle, kind, msg):
         self.out.fail((self.prop, oracle, kind), msg)
@@ -531,10 +532,21 @@ class World:
                 return
             for n in stored:
                 o = self.objs[n]
+                self.tid_of[n] = tid
                 if o._p_changed or (o._p_changed is not None and o._p_serial != tid):
                     self.fail('commit-records', 'object-not-clean',
                               'after commit %s has _p_changed=%r _p_serial=%r (commit tid %r)' % (
                                   n, o._p_changed, o._p_serial, tid))
+                    return
+            # ... and the objects it did NOT write still carry the id of the transaction that wrote them last
+            for n in sorted(m.committed):
+                o = self.objs.get(n)
+                if n in stored or o is None or n not in self.tid_of or o._p_changed is None:
+                    continue
+                if o._p_serial != self.tid_of[n]:
+                    self.fail('commit-records', 'serial-of-unwritten-object',
+                              'after a commit that did not write %s it carries _p_serial=%r ; its newest record is %r (this commit: %r)' % (
+                                  n, o._p_serial, self.tid_of[n], tid))
                     return
             self.labels.add('commit-with-new' if had_new else 'commit')
         elif after != before:
@@ -657,6 +669,7 @@ class World:
             o2 = c2.get(self.oids[n])
             raw_set(o2, 's0', 7000 + self.steps)
             self.tm2.commit()
+            self.tid_of[n] = o2._p_serial
         finally:
             c2.close()
         m.committed[n]['slots']['s0'] = ('i', 7000 + self.steps)
